@@ -123,3 +123,91 @@ def identity_process_row(ctx, cls):
     body = [s for s in pr.node.body if not (isinstance(s, ast.Expr) and isinstance(s.value, ast.Constant))]
     return len(body) == 1 and isinstance(body[0], ast.Return) and isinstance(body[0].value, ast.Name) \
         and body[0].value.id == pr.params[1]
+
+
+def writer_keeps_no_row(ctx, rule='R12w'):
+    """The format writers behind the file dumpers serialise a row inside the write_row call: neither the row nor the transformed
+    row built from it (whose array / object cells are the very objects of the row) is kept in the writer's own state.  A kept
+    reference is serialised later - after the row was handed downstream, where a step may edit it in place."""
+    run, repo, res = ctx.run, ctx.repo, ctx.res
+    run.rule(rule, 'WRITER-KEEPS-NO-ROW: starting from FileFormat.write_row and following every self / super call that is handed the '
+                   'row or something built from it (all overriders), no method stores that value in the writer object (self.x = v, '
+                   'self.x[k] = v, self.x.append(v) ...) other than by writing it to the output sink: the bytes of a row are fixed '
+                   'before the row continues downstream')
+    base = repo.cls('dataflows.processors.dumpers.formats.base:FileFormat')
+    init = base.methods.get('__init__')
+    entry = base.methods.get('write_row')
+    if init is None or entry is None:
+        raise AnalysisError('FileFormat.__init__ / write_row not found')
+    sink = None
+    for n in own_nodes(init.node):
+        if isinstance(n, ast.Assign) and len(n.targets) == 1 and isinstance(n.value, ast.Name) and len(init.params) > 1 \
+                and n.value.id == init.params[1] and pseudo(n.targets[0]) and pseudo(n.targets[0]).startswith('self.'):
+            sink = pseudo(n.targets[0])
+    if sink is None:
+        raise AnalysisError('FileFormat.__init__: the attribute holding the output sink was not found')
+    work = [(entry, frozenset(entry.params[1:]))]
+    seen = set()
+    n_methods = 0
+    while work:
+        fi, params = work.pop()
+        key = (fi.qualname, params)
+        if key in seen or not params:
+            continue
+        seen.add(key)
+        n_methods += 1
+        refs = set(params)
+        nodes = list(own_nodes(fi.node))
+
+        def is_self_call(c):
+            f = c.func
+            return isinstance(f, ast.Attribute) and (pseudo(f.value) == 'self' or (isinstance(f.value, ast.Call) and u(f.value.func) == 'super'))
+
+        def carries(e):
+            """does evaluating e give the row / something holding its cells by reference?"""
+            if _direct_refs(e) & refs:
+                return True
+            if isinstance(e, ast.Call) and is_self_call(e) and any(carries(a) for a in e.args):
+                return True
+            if isinstance(e, (ast.DictComp, ast.ListComp, ast.GeneratorExp, ast.SetComp)):
+                return any(pseudo(g.iter) in refs or (isinstance(g.iter, ast.Call) and isinstance(g.iter.func, ast.Attribute) and
+                                                      pseudo(g.iter.func.value) in refs) for g in e.generators)
+            return False
+        changed = True
+        while changed:
+            changed = False
+            for n in nodes:
+                if isinstance(n, ast.Assign) and len(n.targets) == 1 and isinstance(n.targets[0], ast.Name) and \
+                        n.targets[0].id not in refs and carries(n.value):
+                    refs.add(n.targets[0].id)
+                    changed = True
+        bad = []
+        for n in nodes:
+            if isinstance(n, ast.Call) and isinstance(n.func, ast.Attribute):
+                recv = pseudo(n.func.value) or ''
+                if n.func.attr in ('append', 'add', 'insert', 'extend', 'appendleft', 'setdefault', 'update', 'put') and \
+                        recv.startswith('self.') and not (recv == sink or recv.startswith(sink + '.')) and any(carries(a) for a in n.args):
+                    bad.append(n)
+                if is_self_call(n):
+                    idx = [i for i, a in enumerate(n.args) if carries(a)]
+                    if idx:
+                        for t in res.resolve_call(n):
+                            if isinstance(t, FuncInfo) and not isinstance(t.node, ast.Lambda):
+                                ps = [p for p in t.params if p not in ('self', 'cls')]
+                                if t.node.args.vararg is not None and not ps:
+                                    continue
+                                work.append((t, frozenset(ps[i] for i in idx if i < len(ps))))
+            elif isinstance(n, ast.Assign):
+                for t in n.targets:
+                    p = pseudo(t) if not isinstance(t, ast.Subscript) else (pseudo(t.value) or '')
+                    if p and p.startswith('self.') and not (p == sink or p.startswith(sink + '.')) and carries(n.value):
+                        bad.append(n)
+        for n in bad:
+            run.fail(rule, where(repo, n), fi.qualname, 'row kept in writer state: %s' % u(n)[:80],
+                     'the writer keeps the row (or the transformed row, whose array / object cells are the row\'s own objects) in its '
+                     'state instead of serialising it during the call: it is written after the row went downstream, so an in-place edit '
+                     'by a later step changes the bytes on disk')
+        if not bad:
+            run.ok(rule, fi.where, fi.qualname + '(%s)' % ', '.join(sorted(params)), 'nothing row-derived stored in self.*')
+    run.floor(rule, n_methods, 5, 'writer methods reached from write_row')
+    return n_methods
